@@ -59,7 +59,7 @@ def c03(tier, seed):
 
 def c04(tier, seed):
     w = n(tier, 200, 3000)
-    runs = [dict(cfg=c, traces=w, preds=C04_PREDS) for c in ("p11", "prst", "pnat", "plife0", "plifeD0")]
+    runs = [dict(cfg=c, traces=w, preds=C04_PREDS) for c in ("p11", "prst", "pnat", "plife0", "plifeD0", "pclose")]
     runs[1]["scheds"] = ["fc04_failed_then_connected"]
     plan = {"runs": runs, "mc": [("plifemc", ["SelWhileConnected"], n(tier, {"MaxTicks": 2, "Steps": [2], "MaxTime": 6}, {"MaxTicks": 3, "Steps": [3], "MaxTime": 9}),
                    ["ReleasedOnFailed", "Lifecycle"])], "assumptions": SESSION_ASSUME}
@@ -80,10 +80,11 @@ def c05(tier, seed):
 
 def c06(tier, seed):
     w = n(tier, 200, 3000)
-    runs = [dict(cfg=c, traces=w, preds=C06_PREDS) for c in ("pnat", "pnatc", "prst", "p11", "p21n", "pall", "p22", "pnewrst")]
+    runs = [dict(cfg=c, traces=w, preds=C06_PREDS) for c in ("pnat", "pnatc", "prst", "p11", "p21n", "pall", "p22", "pnewrst", "pclose")]
     runs[0]["scheds"] = ["nm_findpair"]
     plan = {"runs": runs, "mc": [("pnat", ["UniqueIds", "NoDupPairs", "PairsFromCurrent", "SelListed"], None),
-                                 ("prst", ["UniqueIds", "NoDupPairs", "PairsFromCurrent", "SelListed"], None)],
+                                 ("prst", ["UniqueIds", "NoDupPairs", "PairsFromCurrent", "SelListed"], None),
+                                 ("pclose", ["UniqueIds", "NoDupPairs", "PairsFromCurrent", "SelListed", "SelWhileConnected"], None, ["Lifecycle", "ReleasedOnFailed"])],
             "assumptions": SESSION_ASSUME}
     return session.run_property("C06", tier, seed, plan)
 
